@@ -872,13 +872,19 @@ func nmeaSentence(text string) []byte {
 // headers, among them its credentials.
 func ntripRequest(r *ref.SplitMix64) []byte {
 	cred := []string{"dXNlcjpzZWNyZXQ=", "Ym9iOmh1bnRlcjI=", "YTpi", "c3RhdGlvbjAwMTpwYXNzd29yZC13aXRoLWEtbG9uZy10YWls"}[r.Intn(4)]
-	switch r.Intn(3) {
+	// the mountpoint and the query are the client's to choose: percent-encoded, entity
+	// text, doubly encoded - none of it may come out of the status page as markup
+	mount := []string{"MOUNT1", "BASE7", "%3Cimg%20src=x%20onerror=alert(1)%3E", "BASE7?x=%3Cscript%3Ealert(1)%3C/script%3E", "a%26lt%3Bb%26gt%3B", "&lt;b&gt;bold&lt;/b&gt;",
+		"%253Cb%253E", "M%3e%3c/pre%3e%3ch1%3e", "\\u003cb\\u003e", "+%3Cb%3E+"}[r.Intn(10)]
+	switch r.Intn(4) {
+	case 3:
+		return []byte("GET /" + mount + " HTTP/1.0\r\nUser-Agent: NTRIP %3Cb%3Eclient%3C/b%3E/2.0\r\nAuthorization: Basic " + cred + "\r\n\r\n")
 	case 0:
 		return []byte("GET /MOUNT1 HTTP/1.1\r\nHost: caster.example:2101\r\nNtrip-Version: Ntrip/2.0\r\nUser-Agent: NTRIP go-ntrip/1.0\r\nAuthorization: Basic " + cred + "\r\nConnection: close\r\n\r\n")
 	case 1:
-		return []byte("POST /BASE7 HTTP/1.1\r\nHost: caster.example:2101\r\nAuthorization: Basic " + cred + "\r\nNtrip-Version: Ntrip/2.0\r\nTransfer-Encoding: chunked\r\n\r\n")
+		return []byte("POST /" + mount + " HTTP/1.1\r\nHost: caster.example:2101\r\nAuthorization: Basic " + cred + "\r\nNtrip-Version: Ntrip/2.0\r\nTransfer-Encoding: chunked\r\n\r\n")
 	}
-	return []byte("SOURCE " + cred + " /BASE7\r\nSource-Agent: NTRIP test\r\nAuthorization: Basic " + cred + "\r\n\r\n")
+	return []byte("SOURCE " + cred + " /" + mount + "\r\nSource-Agent: NTRIP test\r\nAuthorization: Basic " + cred + "\r\n\r\n")
 }
 
 // casterAnswer is the first thing a caster sends: acceptance or a refusal.
